@@ -410,4 +410,25 @@ def sync {IR : Type} (E : Emitters IR) (t : Kind) (truthPath : List String) (pat
   | .error e => { files := s, flags := [], err := some e }
   | .ok ir => syncLoop E paths ir kinds { files := s, flags := [], err := none }
 
+/-! ### several kinds in one file
+
+The CLI takes a file name per kind and nothing stops two kinds from naming the same file (`--class shared.py
+--argparse-function shared.py`).  `slot k` is the kind under which the file of kind `k` is stored in `Files` (a canonical
+representative of the kinds sharing that file; `slot = id` means three distinct files).  Every `_conform_filename` reads the
+file as the previous one left it; the truth's interface is read once, before the loop. -/
+
+def syncLoopAt {IR : Type} (E : Emitters IR) (paths : Kind → List String) (slot : Kind → Kind) (ir : IR) : List Kind → Run → Run
+  | [], r => r
+  | k :: ks, r =>
+    match conform E k (paths k) ir (r.files.get (slot k)) with
+    | .error e => { r with err := some e }
+    | .ok (file', flag) =>
+      syncLoopAt E paths slot ir ks { files := r.files.set (slot k) file', flags := r.flags ++ [(k, flag)], err := none }
+
+def syncAt {IR : Type} (E : Emitters IR) (t : Kind) (truthPath : List String) (paths : Kind → List String) (slot : Kind → Kind)
+    (s : Files) : Run :=
+  match targetIR E t truthPath (s.get (slot t)) with
+  | .error e => { files := s, flags := [], err := some e }
+  | .ok ir => syncLoopAt E paths slot ir kinds { files := s, flags := [], err := none }
+
 end Sync
